@@ -214,3 +214,27 @@ int creds_derive(const CredSet *good, const CredOpts *o, CredSet *cs)
 	cs->ok = *chain_len <= TLS_MAX_CERTIFICATES_SIZE;
 	return 1;
 }
+
+size_t creds_extra_roots(int n, uint8_t *out, size_t cap)
+{
+	static Ident roots[8];
+	static int have;
+	if (!have) {
+		sim_ambient_entropy_seed(0xC0FFEE77);
+		for (int i = 0; i < 8; i++) {
+			SM2_KEY k; char cn[32];
+			if (sm2_key_generate(&k) != 1) die("extra roots");
+			snprintf(cn, sizeof(cn), "Unrelated Root %d", i);
+			CertSpec s = { cn, 1, -1, X509_KU_KEY_CERT_SIGN | X509_KU_CRL_SIGN, SIM_T0 - 1000 * 86400LL, SIM_T0 + 2000 * 86400LL };
+			if (creds_issue(&s, &k, NULL, &roots[i]) != 1) die("extra roots issue");
+		}
+		have = 1;
+	}
+	size_t len = 0;
+	for (int i = 0; i < n && i < 8; i++) {
+		if (len + roots[i].certlen > cap) break;
+		memcpy(out + len, roots[i].cert, roots[i].certlen);
+		len += roots[i].certlen;
+	}
+	return len;
+}
